@@ -74,7 +74,7 @@ func (x *Exec) callFunc(fr *frame, st *State, callee *ssa.Function, args []Value
 	if x.isSpecFunc(callee) {
 		return x.callSpec(st, callee, args)
 	}
-	if ct := x.Prog.Contracts[q]; ct != nil && !x.Opt.NoContract[q] {
+	if ct := x.Prog.Contracts[q]; ct != nil && !x.Opt.NoContract[q] && !(x.Opt.InlineAll && callee.Blocks != nil) {
 		return x.applyContract(st, ct, callee, args, resT, pos)
 	}
 	if callee.Blocks != nil && len(x.stack) < x.Opt.MaxInline && !x.onStack(callee) {
@@ -527,7 +527,13 @@ func (x *Exec) applyContract(st *State, ct *Contract, callee *ssa.Function, args
 	na := x.C.Fresh("alloc", IntSort)
 	x.assume(st, x.C.IntCmp(">=", na, st.Alloc))
 	st.Alloc = na
-	res := x.freshResult(st, short, resT)
+	var res Value
+	if ct.Pure && resT != nil && len(ct.Ensures) == 0 && allScalar(args) {
+		res = x.pureResult(name, args, resT)
+		x.assume(st, x.wfValueOrTuple(res, st.Alloc))
+	} else {
+		res = x.freshResult(st, short, resT)
+	}
 	post := x.contractEnv(ct, callee, args, st, old)
 	for k, v := range env.vars {
 		if _, ok := post.vars[k]; !ok {
@@ -1020,4 +1026,55 @@ func (x *Exec) staticTypeOf(ct *Contract, callee *ssa.Function, e ast.Expr) type
 		}
 	}
 	return nil
+}
+
+// pureResult models the result of a pure function as uninterpreted functions of its argument leaves.
+func (x *Exec) pureResult(name string, args []Value, resT types.Type) Value {
+	var flat []*Term
+	var sorts []*Sort
+	for _, a := range args {
+		for _, l := range a.L {
+			flat = append(flat, l)
+			sorts = append(sorts, l.Sort)
+		}
+	}
+	mk := func(t types.Type, tag string) Value {
+		lay := LayoutOf(t)
+		v := Value{T: t, L: make([]*Term, len(lay.Leaves))}
+		for k, lf := range lay.Leaves {
+			f := x.C.DeclareFun(fmt.Sprintf("pure$%s%s$%d", name, tag, k), sorts, lf.Sort)
+			v.L[k] = x.C.App(f, flat...)
+		}
+		return v
+	}
+	if tup, ok := resT.(*types.Tuple); ok {
+		out := Value{T: resT}
+		for i := 0; i < tup.Len(); i++ {
+			out.Tuple = append(out.Tuple, mk(tup.At(i).Type(), fmt.Sprintf("$r%d", i)))
+		}
+		return out
+	}
+	return mk(resT, "")
+}
+
+func (x *Exec) wfValueOrTuple(v Value, alloc *Term) *Term {
+	if len(v.Tuple) > 0 {
+		var fs []*Term
+		for _, e := range v.Tuple {
+			fs = append(fs, x.wf(e, alloc))
+		}
+		return x.C.And(fs...)
+	}
+	return x.wf(v, alloc)
+}
+
+func allScalar(args []Value) bool {
+	for _, a := range args {
+		for _, lf := range LayoutOf(a.T).Leaves {
+			if lf.Role != "" {
+				return false
+			}
+		}
+	}
+	return true
 }
